@@ -820,6 +820,15 @@ var witnesses = []witness{
 			"x/f4.proto": "syntax = \"proto2\"; package p; import \"y/f1.proto\";\nmessage NE {}\nmessage K { optional int32 k = 1; }\nextend M7 { optional NE x89 = 189; optional K x90 = 190; }\n",
 			"y/f1.proto": "syntax = \"proto2\"; package p;\nmessage M7 { extensions 100 to 200; }\n"},
 		include: []string{"p.x89"}, exclude: []string{"p.NE"}},
+	// a field dropped for its excluded type carries the only use of a custom option: the option's
+	// definition, its value type, the Any payload and their files must not be kept (minimal, idempotent)
+	{name: "option-of-dropped-field",
+		target: map[string]string{
+			"opts.proto": "syntax = \"proto3\"; package opts; import \"google/protobuf/descriptor.proto\"; import \"google/protobuf/any.proto\";\n// c:Tag\nmessage Tag { string name = 1; google.protobuf.Any a = 2; }\nextend google.protobuf.FieldOptions { Tag tag = 50001; }\n",
+			"pay.proto":  "syntax = \"proto3\"; package pay;\n// c:P\nmessage P {}\n",
+			"b.proto":    "syntax = \"proto3\"; package b;\n// c:B\nmessage B { string v = 1; }\n",
+			"a.proto":    "syntax = \"proto3\"; package a; import \"b.proto\"; import \"opts.proto\"; import \"pay.proto\";\n// c:A\nmessage A {\n  string id = 1;\n  // c:b\n  b.B b = 2 [(opts.tag) = { name: \"only-here\" a: { [type.googleapis.com/pay.P]: {} } }];\n}\n"},
+		include: []string{"a.A"}, exclude: []string{"b.B"}},
 	{name: "included-extension-kept",
 		target: map[string]string{
 			"x/f4.proto": "syntax = \"proto2\"; package p; import \"y/f1.proto\";\nmessage NE {}\nmessage K { optional int32 k = 1; }\nextend M7 { optional NE x89 = 189; optional K x90 = 190; }\n",
